@@ -170,6 +170,44 @@ def run(ck, ix, tier):
     ck.check(bool(sup) and bool(root) and p is None, "G-PROV", "group._add_unit|every-unit-joins-root", fi.loc(),
              "every added unit is added to the root group", "a unit can be added without joining the root group", witness(cfg, p))
 
+    # ------------------------------------------------------------ rule inversion in System.from_definition
+    fi = ix.func(SO, "System.from_definition")
+    ck.analysed(fi)
+    defs = defs_of(fi)
+    stores = [a for a in walk_local(fi.node) if isinstance(a, ast.Assign) and any(isinstance(t, ast.Subscript) and norm(t.value) == "base_unit_names" for t in a.targets)]
+    ck.floor("G-PROV", len(stores), 2, "base_unit_names stores in System.from_definition")
+    for a in stores:
+        v = a.value
+        if isinstance(v, ast.Dict):
+            # bare form:  old = new ** (1 / exponent of old in new's root expansion)
+            ok = len(v.keys) == 1 and norm(v.keys[0]) == "new_unit" and norm(v.values[0]).replace(" ", "") in ("1/value", "value**-1", "1/(value)")
+            ck.check(ok, "G-PROV", "System.from_definition|bare-rule-inverted", fi.loc(a), "old = new ** (1/value)",
+                     f"`{norm(a)}`: for a rule `new` whose root expansion is old**value the replacement must be new**(1/value)")
+        else:
+            comp = defs.inline(v)
+            dc = [c for c in ast.walk(comp) if isinstance(c, ast.DictComp)]
+            if not dc:
+                raise AnalysisError("System.from_definition: unrecognised replacement construction")
+            pexp = norm(defs.inline(ast.parse("new_unit_expanded[old_unit]", mode="eval").body))
+            val = dc[0].value
+            it = dc[0].generators[0]
+            e = norm(it.target.elts[1]) if isinstance(it.target, ast.Tuple) else "?"
+            okv = isinstance(val, ast.BinOp) and isinstance(val.op, ast.Div) and norm(val.left).replace(" ", "") == f"-{e}" and norm(defs.inline(val.right)) == pexp
+            ck.check(okv, "G-PROV", "System.from_definition|other-units-exponent-inverted", fi.loc(a), "other root units get exponent -e/p",
+                     f"`{norm(dc[0].value)}`: solving new = old**p * prod(other**e) for old gives other**(-e/p), p = exponent of old")
+            flt = [norm(i).replace(" ", "") for i in it.ifs]
+            ck.check(any("!=old_unit" in i for i in flt), "G-PROV", "System.from_definition|old-unit-excluded", fi.loc(a), "the replaced unit is excluded", "the replaced unit is not excluded from its own replacement")
+    own = [a for a in walk_local(fi.node) if isinstance(a, ast.Assign) and any(isinstance(t, ast.Subscript) and norm(t.value) == "new_unit_dict" and norm(t.slice) == "new_unit" for t in a.targets)]
+    ck.floor("G-PROV", len(own), 1, "exponent of the new unit in the replacement")
+    for a in own:
+        val = a.value
+        pexp = norm(defs.inline(ast.parse("new_unit_expanded[old_unit]", mode="eval").body))
+        ck.check(isinstance(val, ast.BinOp) and isinstance(val.op, ast.Div) and norm(val.left) == "1" and norm(defs.inline(val.right)) == pexp, "G-PROV", "System.from_definition|new-unit-exponent-inverted", fi.loc(a), "new unit gets exponent 1/p",
+                 f"`{norm(a)}`: the new unit must get exponent 1/p, p = exponent of old in new's expansion")
+    tests = [t for t in walk_local(fi.node) if isinstance(t, ast.If) and "get_root_func(old_unit)" in norm(t.test)]
+    ck.check(bool(tests) and all(any(isinstance(r, ast.Raise) for r in ast.walk(t)) for t in tests), "G-DOM", "System.from_definition|old-unit-must-be-root", fi.loc(),
+             "a replaced unit that is not a root unit is rejected", "a non-root `old` unit is no longer rejected")
+
     # ------------------------------------------------------------ system-scoped attribute lookup
     fi = ix.func(SO, "System.__getattr__")
     ck.analysed(fi)
